@@ -62,6 +62,20 @@ PromoRank(p) == CASE p = "-" -> 0 [] p = "n" -> 2 [] p = "b" -> 3 [] p = "r" -> 
 MoveKey(f, t, p) == (f * 64 + t) * 8 + PromoRank(p)
 Cmp(a, b) == IF a < b THEN -1 ELSE IF a > b THEN 1 ELSE 0
 
+(* ---- names: ranks "1".."8", files "a".."h", squares file letter + rank digit; tables are indexed from 0 ---- *)
+RankNamesV == <<"1", "2", "3", "4", "5", "6", "7", "8">>
+FileNamesV == <<"a", "b", "c", "d", "e", "f", "g", "h">>
+SquareName(q) == FileNamesV[FileOf(q) + 1] \o RankNamesV[RankOf(q) + 1]
+(* texts a rank / file reader must refuse (one character of the other alphabet, upper case, empty, too long is a prefix matter) *)
+NotARank == {"0", "9", "a", "h", "A", "", " "}
+NotAFile == {"i", "A", "H", "1", "8", "", " "}
+
+(* ---- BitBoard as text: 64 cells "X " / ". " from a1 upwards, a line break after every eighth ---- *)
+RECURSIVE Cells(_, _)
+Cells(S, x) == IF x = 64 THEN ""
+               ELSE (IF x \in S THEN "X " ELSE ". ") \o (IF x % 8 = 7 THEN "\n" ELSE "") \o Cells(S, x + 1)
+BitBoardText(S) == Cells(S, 0)
+
 ASSUME \A i \in 0..3 : CrIdx(CrOfIdx(i)) = i
 ASSUME \A c \in Colors : UnmovedRooks({"K", "Q"}, c) \subseteq {s \in Squares : SquareRights(c, s) # {}}
 ASSUME \A c \in Colors, s \in Squares : SquareRights(c, s) # {} => RankOf(s) = BackRank(c)
